@@ -18,7 +18,7 @@ from ...instantiable import (
     PrimitiveCall,
 )
 from ...module import Module
-from ...portref import PortRef
+from ...portref import PortRef, ordered
 from ...bundle import BundleInstance, BundleRef, AnonymousBundle
 from ...signal import PortDir, Signal, Visibility
 from ...slice import Slice
@@ -106,7 +106,7 @@ class ResolvePortRefs(ElabPass):
                 group.add(conn)
 
             # And recursively follow its connected ports
-            for connected_port in pref._connected_ports:
+            for connected_port in ordered(pref._connected_ports):
                 follow(connected_port, group)
 
         # Collect groups of connected `PortRef`s
